@@ -4,5 +4,5 @@ set -e
 cd "$(dirname "$0")"
 /venv/bin/python harness/translate.py /repo > /dev/null
 cd lean
-lake build 2>&1 | grep -v "^warning\|^$\|^Hint\|^Note\|\[apply\]" | tail -20
+lake build Pff pffdriver 2>&1 | grep -v "^warning\|^$\|^Hint\|^Note\|\[apply\]" | tail -20
 echo "setup done"
